@@ -476,22 +476,26 @@ def run(ctx: lib.Ctx) -> None:
                            'repro': 'Interpreter.run_code(Unit, Pair <literal> {}, contract) as in harness/c15.py run_impl'})
         lcases.append((f'({V.tables_coq(pool)}, {clist(f"({V.value_coq(k)}, {cZ(z)})" for k, z in ents)})', cbool(accepted)))
         lmeta.append((accepted == want, t, ents, vt))
-    lbad = V.par_mismatches(ctx, 'bigmaplit', IMPORTS,
-                            'fun x => let T := texts_of (fst x) in accepted (map_literal (py_eq T) (py_lt T) (snd x))', 'Bool.eqb',
-                            'text_tables * list (val * Z)', 'bool', lcases, shard=400)
-    lbad = [i for i in lbad if lmeta[i][0]]
+    import concurrent.futures
+    lit_pool = concurrent.futures.ThreadPoolExecutor(max_workers=2)
+    lit_future = lit_pool.submit(V.par_mismatches, ctx, 'bigmaplit', IMPORTS,
+                                 'fun x => let T := texts_of (fst x) in accepted (map_literal (py_eq T) (py_lt T) (snd x))', 'Bool.eqb',
+                                 'text_tables * list (val * Z)', 'bool', lcases, 400)
+    tick_future = lit_pool.submit(V.par_mismatches, ctx, 'bigmapticket', IMPORTS, 'fun x => fst (fst (bm_case x))', 'list_eqb bm_obs_eqb',
+                                  'text_tables * list (val * bytes) * list (bytes * Z) * list (val * Z) * list bm_instr', 'list bm_obs',
+                                  tcases, 400)
+    bad = V.par_mismatches(ctx, 'bigmap', IMPORTS, 'bm_case', 'bm_case_eqb',
+                           'text_tables * list (val * bytes) * list (bytes * Z) * list (val * Z) * list bm_instr', 'bm_case_out',
+                           cases, shard=ctx.n(60, 160))
+    tbad = tick_future.result()
+    lbad = [i for i in lit_future.result() if lmeta[i][0]]
+    lit_pool.shutdown()
     if lbad and reported == 0:
         ok_, t, ents, vt = lmeta[lbad[0]]
         ctx.violation('implementation no longer corresponds to the model the theorems are about',
                       {'correspondence': 'C15/big_map literal (MapType.check_constraints) vs Michelson.Collections.map_literal',
                        'key_type': V.type_src(t), 'literal': [(V.value_src(k), vt.lit(z)) for k, z in ents]}, found=False)
         reported += 1
-    bad = V.par_mismatches(ctx, 'bigmap', IMPORTS, 'bm_case', 'bm_case_eqb',
-                           'text_tables * list (val * bytes) * list (bytes * Z) * list (val * Z) * list bm_instr', 'bm_case_out',
-                           cases, shard=ctx.n(60, 160))
-    tbad = V.par_mismatches(ctx, 'bigmapticket', IMPORTS, 'fun x => fst (fst (bm_case x))', 'list_eqb bm_obs_eqb',
-                            'text_tables * list (val * bytes) * list (bytes * Z) * list (val * Z) * list bm_instr', 'list bm_obs',
-                            tcases, shard=400)
     meta = meta + tmeta
     cases = cases + tcases
     bad = bad + [len(meta) - len(tmeta) + i for i in tbad]
